@@ -67,3 +67,113 @@ PROPS["C16"] = dict(
                  "h_unalign: block_size_shift computed as in mi_page_init"],
     trusted=["harness c16_arith.c oracles"],
 )
+
+
+# ------------------------------------------------------------------------------------------------
+# API-logic lemmas (api_logic.c): C05 realloc family, C04 zero growth, C06 malformed requests, C03 aligned allocation
+API_REPL = {"_mi_heap_malloc_zero_ex": "stub_malloc_zero_ex", "_mi_page_malloc": "stub_page_malloc",
+            "_mi_page_malloc_zeroed": "stub_page_malloc_zeroed", "mi_free": "stub_free",
+            "_mi_usable_size": "stub_usable_size", "_mi_ptr_page": "stub_ptr_page"}
+API_STUBS = ["stub _mi_heap_malloc_zero_ex: NULL if size>MI_MAX_ALLOC_SIZE, NULL nondeterministically, else fresh 16-aligned dirty block of arbitrary usable size>=size (zeroed over its whole usable size when zero requested)",
+             "stub mi_free/_mi_usable_size/_mi_ptr_page over a two-block mock heap (asserts pointer validity, single free, has_aligned for interior pointers)",
+             "_mi_error_message/_mi_warning_message: recording/empty bodies"]
+RE_FUNCS = ["_mi_heap_realloc_zero", "mi_heap_realloc", "mi_heap_reallocn", "mi_heap_reallocf", "mi_heap_rezalloc", "mi_heap_recalloc",
+            "mi_realloc", "mi_rezalloc", "mi_reallocf", "mi_reallocn", "mi_recalloc", "mi_reallocarray", "mi_reallocarr", "mi_count_size_overflow", "_mi_memcpy", "_mi_memzero"]
+REA_FUNCS = ["mi_heap_realloc_zero_aligned_at", "mi_heap_realloc_zero_aligned", "mi_heap_malloc_zero_aligned_at", "mi_heap_malloc_zero_aligned_at_generic",
+             "mi_heap_malloc_zero_aligned_at_overalloc", "mi_malloc_is_naturally_aligned", "mi_good_size", "mi_realloc_aligned(_at)", "mi_rezalloc_aligned(_at)", "mi_recalloc_aligned(_at)"]
+UNW_RE = 135
+SMALLB = ["OLDCAP=32", "NEWCAP=64", "MAXNEW=24", "MAXALIGN=16", "MAXOFF=9"]
+
+
+MULREPL = dict(API_REPL); MULREPL["mi_mul_overflow"] = "stub_mul_overflow"
+
+
+def api_ob(id, entry, variant=None, defines=(), **kw):
+    d = list(defines)
+    if variant is not None:
+        d.append("VARIANT=%d" % variant)
+    kw.setdefault("unwind", UNW_RE)
+    kw.setdefault("timeout", 900)
+    kw.setdefault("native_replay", False)
+    kw.setdefault("replace", API_REPL)
+    return O(id, "api_logic.c", entry, defines=d, **kw)
+
+
+def c05():
+    names = ["realloc", "rezalloc", "reallocf", "reallocn", "recalloc", "reallocarray", "reallocarr"]
+    anames = ["realloc_aligned", "rezalloc_aligned", "realloc_aligned_at", "rezalloc_aligned_at", "recalloc_aligned", "recalloc_aligned_at"]
+    obs = []
+    for v, n in enumerate(names):
+        obs.append(api_ob("C05.%s" % n, "h_realloc", v, funcs=RE_FUNCS, cost=60,
+                          bounds="old usable <= 64 bytes (interior pointers up to +56), new size <= 48, arbitrary contents, core may fail"))
+    for v, n in enumerate(anames):
+        obs.append(api_ob("C05.%s" % n, "h_realloc_aligned", v, funcs=REA_FUNCS, cost=90, defines=SMALLB,
+                          bounds="old usable <= 32 (any byte offset of the pointer), new size <= 24, alignment <= 16, offset <= 9"))
+        obs.append(api_ob("C05.%s.L" % n, "h_realloc_aligned", v, funcs=REA_FUNCS, cost=200, tier="thorough", timeout=2400,
+                          bounds="old usable <= 48, new size <= 40, alignment <= 32, offset <= 24"))
+    obs.append(api_ob("C05.expand", "h_expand", funcs=["mi_expand"], cost=5, bounds="usable <= 64, any new size"))
+    obs.append(api_ob("C05._expand", "h_expand", 1, funcs=["mi__expand", "mi_expand"], cost=5, bounds="usable <= 64, any new size"))
+    obs.append(api_ob("C05.expand.debug", "h_expand", flavour="debug", funcs=["mi_expand"], cost=5, bounds="padding build"))
+    return obs
+
+
+PROPS["C05"] = dict(
+    obligations=c05,
+    bounds="old block usable size <= 64 bytes incl. interior (over-aligned) pointers, new size <= 48 bytes, alignment <= 32, offset <= 40, all byte contents symbolic; loops unwound 170",
+    outside="size classes/huge boundaries are abstracted by the stub (arbitrary usable size >= request); the real _mi_usable_size/mi_free on pages are decided under C01/C03; larger sizes",
+    assumptions=API_STUBS,
+    trusted=["api_logic.c mock heap and oracles"],
+)
+
+
+def c04():
+    obs = []
+    for v, n in [(1, "rezalloc"), (4, "recalloc")]:
+        obs.append(api_ob("C04.grow.%s" % n, "h_realloc", v, defines=["ZERO_PREMISE"], funcs=RE_FUNCS, cost=60,
+                          bounds="zero-initialised old block (bytes [requested,usable) zero), usable <= 64, new size <= 48"))
+    for v, n in [(1, "rezalloc_aligned"), (3, "rezalloc_aligned_at"), (4, "recalloc_aligned"), (5, "recalloc_aligned_at")]:
+        obs.append(api_ob("C04.grow.%s" % n, "h_realloc_aligned", v, defines=["ZERO_PREMISE"] + SMALLB, funcs=REA_FUNCS, cost=90,
+                          bounds="zero-initialised old block, usable <= 32, new size <= 24, alignment <= 16, offset <= 9"))
+        obs.append(api_ob("C04.grow.%s.L" % n, "h_realloc_aligned", v, defines=["ZERO_PREMISE"], funcs=REA_FUNCS, cost=300, tier="thorough", timeout=3000,
+                          bounds="zero-initialised old block, usable <= 48, new size <= 40, alignment <= 32, offset <= 24"))
+    obs.append(api_ob("C04.aligned_zero", "h_aligned_zero", funcs=REA_FUNCS + ["mi_zalloc_aligned(_at)", "mi_calloc_aligned_at", "mi_heap_zalloc_aligned_at"], cost=60,
+                      bounds="size <= 40, alignment <= 64, offset <= 64"))
+    return obs
+
+
+PROPS["C04"] = dict(
+    obligations=c04,
+    bounds="blocks <= 64 bytes usable, new sizes <= 48, alignment <= 64; induction step of a growth chain: premise and conclusion 'bytes [requested, usable) are zero'",
+    outside="shrink-then-grow chains (the property quantifies over monotone growth); the OS/arena zero promise; huge blocks (page lemma)",
+    assumptions=API_STUBS + ["premise of the induction step: a block obtained from a zeroing entry point has bytes [requested, usable) zero (established by the page lemma: zeroing allocation zeroes the full block)"],
+    trusted=["api_logic.c mock heap and oracles"],
+)
+
+
+def c06():
+    obs = []
+    names = ["calloc", "mallocn", "reallocn", "recalloc", "calloc_aligned", "calloc_aligned_at", "recalloc_aligned", "recalloc_aligned_at",
+             "reallocarray", "reallocarr", "heap_calloc", "heap_mallocn", "heap_reallocn", "heap_recalloc", "heap_calloc_aligned",
+             "heap_calloc_aligned_at", "heap_recalloc_aligned", "heap_recalloc_aligned_at"]
+    for v, n in enumerate(names):
+        obs.append(api_ob("C06.overflow.%s" % n, "h_overflow", v, funcs=["mi_count_size_overflow", "mi_" + n], cost=30, replace=MULREPL,
+                          tier="quick" if v in (0, 2, 3, 5, 7, 8, 9, 13) else "thorough",
+                          bounds="all 64-bit count/size pairs, all power-of-two alignments, all offsets; old block <= 64 bytes"))
+    obs.append(O("C06.mul_overflow", "api_logic.c", "h_mul_overflow", tier="thorough", backend="cvc5int", timeout=1800,
+                 funcs=["mi_mul_overflow", "mi_count_size_overflow"], bounds="all 64-bit pairs", cost=100))
+    bnames = ["malloc_aligned", "malloc_aligned_at", "zalloc_aligned", "zalloc_aligned_at", "memalign", "aligned_alloc", "posix_memalign",
+              "heap_malloc_aligned", "heap_zalloc_aligned_at", "realloc_aligned_at", "rezalloc_aligned", "pvalloc", "valloc", "new_aligned_nothrow"]
+    for v, n in enumerate(bnames):
+        obs.append(api_ob("C06.badalign.%s" % n, "h_badalign", v, funcs=["mi_" + n, "mi_heap_malloc_zero_aligned_at", "mi_heap_malloc_zero_aligned_at_generic"], cost=60,
+                          tier="quick" if v in (0, 1, 4, 6, 9, 11) else "thorough",
+                          bounds="all 64-bit size/alignment/offset triples"))
+    return obs
+
+
+PROPS["C06"] = dict(
+    obligations=c06,
+    bounds="full 64-bit symbolic count/size/alignment/offset; old block <= 64 bytes",
+    outside="'a well-formed request fails only when the OS refuses' is the composition with C07 (stub core may refuse arbitrarily); mi_find_page's own maximum-size test is decided in the page lemmas",
+    assumptions=API_STUBS,
+    trusted=["api_logic.c mock heap and oracles", "128-bit reference product for overflow"],
+)
